@@ -335,7 +335,7 @@ proof fn lemma_exit_custom(s: Seq<char>)
     }
 }
 
-//@ EXTRACT-FN file=src/generators/base/templates.rs fn=add_types_prefix props=C02
+//@ EXTRACT-FN file=src/generators/base/templates.rs fn=add_types_prefix props=C02,C05
 //@ RETURNS r
 //@ CONTRACT
 //@|    ensures
